@@ -12,6 +12,9 @@ use std::collections::BTreeMap;
 #[derive(Default)]
 pub struct RunOutcome {
     pub violation: Option<Anomaly>,
+    /// a violation that leaves the collections intact, so that the run goes on (and later,
+    /// different violations are not masked): first one of the run
+    pub soft: Option<Anomaly>,
     pub foreign: Vec<&'static str>,
     pub steps: usize,
     pub states: Vec<u64>,
@@ -75,11 +78,20 @@ pub fn begin_run() {
     ctx::reset_run();
 }
 
+/// Violations after which the collections are intact and the model is still right.
+pub fn is_soft(a: &Anomaly) -> bool {
+    a.class == "keyless-replace-panic"
+}
+
 /// Fold the anomalies of one step into the outcome. Returns true if the run must stop.
 pub fn absorb(prop: Prop, out: &mut RunOutcome, anomalies: Vec<Anomaly>, fatal: bool) -> bool {
     let mut stop = fatal;
     for a in anomalies {
-        if owns(prop, &a) {
+        if owns(prop, &a) && is_soft(&a) {
+            if out.soft.is_none() {
+                out.soft = Some(a);
+            }
+        } else if owns(prop, &a) {
             if out.violation.is_none() {
                 out.violation = Some(a);
             }
